@@ -52,6 +52,14 @@ def rules_points(run):
         xs = [s for s in A.sites if A.region(s) == reg and s.label == lab]
         return xs[0] if len(xs) == 1 else None
     exit_code, action, entry_code = one('exit', 'exit_code'), one('transition', 'action'), one('entry', 'entry_code')
+    if not (exit_code and action and entry_code):
+        # the code of a phase does not run in the phase where its contract is checked (e.g. preconditions in a loop of their own, before any entry code)
+        have = {lab: [A.region(s) for s in A.sites if s.label == lab] for lab in ('exit_code', 'action', 'entry_code')}
+        if all(have.values()):
+            run.fail(r, fi.short, 'contract checks and the code they surround run in the same phase',
+                     'exit code / action / entry code are executed in %s while the contract checks sit in the exit / transition / entry phases: a condition is no longer '
+                     'evaluated just before / after the code of the same state' % have, F)
+            return
     run.anchor(exit_code and action and entry_code, r, 'exit code / action / entry code sites')
     for s in by.get(('exit', 'postconditions'), []):
         run.check(q.ordered(F, exit_code.node, s.node), r, fi.short, 'state postconditions just after its exit code', 'postconditions evaluated before the exit code ran', s.node)
@@ -105,6 +113,13 @@ def rules_raise(run):
                 if isinstance(v, ast.Dict):
                     table = v
                     table_sub = n
+                elif isinstance(v, ast.Name):
+                    # a module-level table
+                    mod_ = fi.module.tree
+                    defs_ = [st2.value for st2 in mod_.body if isinstance(st2, ast.Assign) and len(st2.targets) == 1 and isinstance(st2.targets[0], ast.Name) and st2.targets[0].id == v.id]
+                    if len(defs_) == 1 and isinstance(defs_[0], ast.Dict):
+                        table = defs_[0]
+                        table_sub = n
     run.anchor(table is not None, r, 'kind -> exception class table indexed by cond_type')
     got = {q.const_str(k): dotted(v) for k, v in zip(table.keys, table.values)}
     for k in KINDS:
